@@ -21,7 +21,7 @@ RULES = {
     "C10": "rejected parses: reported position must be a real failure offset of the reference evaluation (the furthest non-hidden one without memo/leftrec) and the detail must name an attempt that failed there. Non-trivial: >=2 distinct failure offsets in the model's attempt list.",
     "C13": "pairs (grammar with >Rule, grammar with the body written in place): identical public type section, and equal results (acceptance, tree incl. positions, error position) on the same inputs. Non-trivial: not both rejected at offset 0.",
     "C14": "parses of grammars with @check / @char @check / @extern rules (with and without user context): results vs model with mirrored functions; the set of (function, argument / offset) calls observed vs the reference evaluation; context threading. Non-trivial: >=1 user-function call whose decision is input dependent.",
-    "C19": "every parse run three times (PegParser::parse, recording tracer through parse_advanced, IndentedTracer through parse_with_trace): equal results and user-function calls; recorded callbacks balanced (depth never negative, every entry exactly one exit). Non-trivial: the parse progressed beyond offset 0.",
+    "C19": "every parse run three times (PegParser::parse, recording tracer through parse_advanced, IndentedTracer through parse_with_trace): equal results and user-function calls; recorded callbacks balanced (depth never negative, every entry exactly one exit); for a sample of cases the text IndentedTracer writes to stderr is captured and its indentation checked for proper nesting. Non-trivial: the parse progressed beyond offset 0.",
 }
 
 # (profile, opts) per tier and the finding kinds each property owns
@@ -30,15 +30,15 @@ MIX = ("mix", {"long_inputs": True, "unicode_heavy": True, "ws_inject": True, "h
 SUITE = ("suite", {}, 1.0)  # the repository's own grammars (test suite + grammar.ebnf), read by the real front end
 MIXT = ("mix", {"long_inputs": True, "unicode_heavy": True, "ws_inject": True, "huge_inputs": True}, 1.0)
 CONF = {
-    "C01": dict(kinds={"accept", "consumed", "fn"} | COMMON_DEATH,
+    "C01": dict(kinds={"accept", "consumed", "fn", "rejected"} | COMMON_DEATH,
                 quick=[("core", {"huge_inputs": True}, 0.8), ("unicode", {"unicode_heavy": True}, 0.4), MIX, SUITE], thorough=[("core", {"huge_inputs": True}, 1.0), ("errors", {}, 0.5), ("fields", {}, 0.5), ("unicode", {"unicode_heavy": True}, 0.5), MIXT, SUITE]),
     "C02": dict(kinds={"tree", "substring"},
                 quick=[("fields", {}, 0.6), ("dupfields", {}, 0.6), ("strings", {"ws_inject": True}, 0.5), ("userfn", {}, 0.4), MIX, SUITE], thorough=[("fields", {}, 1.0), ("dupfields", {}, 1.0), ("strings", {"ws_inject": True}, 0.5), ("core", {}, 1.0), ("include", {}, 0.3), ("userfn", {}, 0.5), ("unicode", {"unicode_heavy": True}, 0.3), MIXT, SUITE]),
     "C04": dict(kinds={"panic", "crash", "boundary", "substring"},
                 quick=[("unicode", {"unicode_heavy": True}, 1.0), MIX], thorough=[("unicode", {"unicode_heavy": True}, 1.0), ("userfn", {"unicode_heavy": True}, 0.3), MIXT]),
     "C05": dict(kinds={"accept", "consumed", "tree", "variant"} | COMMON_DEATH,
-                quick=[("memo", {"memo_variants": True, "grammar_scale": 0.4, "long_inputs": True, "huge_inputs": True, "huge_every": 3}, 1.0), ("userfn", {"memo_variants": True, "grammar_scale": 0.35}, 1.0), ("memofam", {"memo_variants": True}, 1.0)],
-                thorough=[("memo", {"memo_variants": True, "grammar_scale": 0.4, "long_inputs": True, "huge_inputs": True, "huge_every": 3}, 1.0), ("userfn", {"memo_variants": True, "grammar_scale": 0.15}, 1.0), ("memofam", {"memo_variants": True}, 1.0)]),
+                quick=[("memo", {"memo_variants": True, "grammar_scale": 0.4, "long_inputs": True, "huge_inputs": True, "huge_every": 3, "ws_inject": True}, 1.0), ("userfn", {"memo_variants": True, "grammar_scale": 0.35}, 1.0), ("memofam", {"memo_variants": True}, 1.0)],
+                thorough=[("memo", {"memo_variants": True, "grammar_scale": 0.4, "long_inputs": True, "huge_inputs": True, "huge_every": 3, "ws_inject": True}, 1.0), ("userfn", {"memo_variants": True, "grammar_scale": 0.15}, 1.0), ("memofam", {"memo_variants": True}, 1.0)]),
     "C06": dict(kinds={"memo_bound"},
                 quick=[("memofail", {}, 1.0), ("leftrec", {}, 0.4), MIX], thorough=[("memofail", {}, 1.0), ("memo", {}, 0.5), ("leftrec", {}, 0.5), MIXT]),
     "C07": dict(kinds={"accept", "consumed", "tree", "position", "fn"} | COMMON_DEATH,
@@ -55,8 +55,19 @@ CONF = {
     "C14": dict(kinds={"userfn", "accept", "tree", "consumed"},
                 quick=[("userfn", {}, 1.0), MIX], thorough=[("userfn", {}, 1.0), ("errors", {}, 0.5), MIXT]),
     "C19": dict(kinds={"trace_eq", "trace_balance", "crash", "fuel", "panic"},
-                quick=[("trace", {"long_inputs": True}, 1.0), MIX, SUITE], thorough=[("trace", {"long_inputs": True}, 1.0), ("core", {"long_inputs": True}, 1.0), ("leftrec", {}, 1.0), ("userfn", {}, 1.0), ("unicode", {"long_inputs": True, "unicode_heavy": True}, 0.3), MIXT, SUITE]),
+                quick=[("trace", {"long_inputs": True, "capture_indented": True}, 1.0), MIX, SUITE], thorough=[("trace", {"long_inputs": True, "capture_indented": True}, 1.0), ("core", {"long_inputs": True}, 1.0), ("leftrec", {"capture_indented": True}, 1.0), ("userfn", {}, 1.0), ("unicode", {"long_inputs": True, "unicode_heavy": True}, 0.3), MIXT, SUITE]),
 }
+
+
+def build_unhex_safe(x):
+    import build
+    x = str(x)
+    if len(x) > 8 and len(x) % 2 == 0 and all(ch in "0123456789abcdef" for ch in x):
+        try:
+            return build.unhex(x)
+        except Exception:
+            return x
+    return x
 
 
 def finding_signature(profile, f):
@@ -102,7 +113,18 @@ def pipeline_check(pid, tier, seed, extra_hook=None):
                               {"profile": profile, "opts": opts, "grammar_text": f["grammar_text"], "expected": f["expected"], "observed": f["observed"], "kind": "types_differ"})
             agg["type_sections_compared"] = agg.get("type_sections_compared", 0) + s.get("type_sections_compared", 0)
         out.inconc("generator_error", s["n_generator_errors"])
-        out.inconc("grammar_rejected_by_compiler", s["n_pgen_fail"])
+        if "rejected" in conf["kinds"] and not (opts.get("derive_variants") or opts.get("inline_variants")):
+            # a generated grammar is inside the documented syntax and restrictions: the compiler has to produce a parser
+            for c in s["pgen_fail"]:
+                cls = c.get("class") or []
+                if cls[:1] == ["gen_err"] or cls[:1] == ["parse_err"]:
+                    gt = c.get("grammar_text", "")
+                    out.violation("rejected:%s:%s" % (profile, hashlib.sha256(gt.encode()).hexdigest()[:10]),
+                                  "a well-formed grammar is rejected by the compiler (%s): no parser to recognise its language" % " ".join(
+                                      build_unhex_safe(x) for x in cls[:4]),
+                                  {"profile": profile, "opts": opts, "grammar_text": gt, "result": cls, "kind": "rejected"})
+        else:
+            out.inconc("grammar_rejected_by_compiler", s["n_pgen_fail"])
         out.inconc("unit_did_not_compile(see C03)", s["n_compile_fail"])
         out.inconc("watchdog_timeouts", s["timeouts"])
         for k, v in s["counters"].items():
@@ -114,6 +136,8 @@ def pipeline_check(pid, tier, seed, extra_hook=None):
             extra_hook(out, s, profile, opts)
     out.coverage["runs"] = runs_meta
     out.coverage["observed"] = {k: v for k, v in sorted(agg.items()) if not k.startswith("model_drop")}
+    if pid == "C19" and not agg.get("indented_traces_checked"):
+        out.inconc("the log written by IndentedTracer was not observed (no sampled case)")
     floor = 20 if tier == "quick" else 100
     return out, evaluations, nontrivial, floor
 
@@ -167,7 +191,18 @@ def check_C03(tier, seed):
             out.violation(compile_signature(msg), "accepted grammar yields Rust code (or documented-type assertions) rustc rejects: %s" % msg[:300],
                           {"profile": profile, "opts": opts, "grammar_text": c.get("grammar_text"), "rustc": msg[:1500], "uid": c.get("uid")})
         out.inconc("generator_error", s["n_generator_errors"])
-        out.inconc("grammar_rejected_by_compiler", s["n_pgen_fail"])
+        if "rejected" in conf["kinds"] and not (opts.get("derive_variants") or opts.get("inline_variants")):
+            # a generated grammar is inside the documented syntax and restrictions: the compiler has to produce a parser
+            for c in s["pgen_fail"]:
+                cls = c.get("class") or []
+                if cls[:1] == ["gen_err"] or cls[:1] == ["parse_err"]:
+                    gt = c.get("grammar_text", "")
+                    out.violation("rejected:%s:%s" % (profile, hashlib.sha256(gt.encode()).hexdigest()[:10]),
+                                  "a well-formed grammar is rejected by the compiler (%s): no parser to recognise its language" % " ".join(
+                                      build_unhex_safe(x) for x in cls[:4]),
+                                  {"profile": profile, "opts": opts, "grammar_text": gt, "result": cls, "kind": "rejected"})
+        else:
+            out.inconc("grammar_rejected_by_compiler", s["n_pgen_fail"])
         meta.append({"profile": profile, "units": s["units"], "compiled": s["units_run"] + sum(1 for u in um if u["compiled"] and not u["runnable"]),
                      "rejected_by_compiler": s["n_pgen_fail"], "compile_failures": s["n_compile_fail"], "cached": bool(s.get("cached")),
                      "variants": sorted({u["variant"] for u in um})})
